@@ -1275,7 +1275,7 @@ func c12ConstructorCollections(ctx *Ctx, r *Report) {
 	direct, resolved := map[string]token.Pos{}, map[string]bool{}
 	for _, d := range disjuncts {
 		txt := exprString(d)
-		if !strings.Contains(txt, ".Required") {
+		if !strings.Contains(txt, ".Required") && !strings.Contains(txt, "IsConcreteScalar") {
 			continue
 		}
 		ast.Inspect(d, func(m ast.Node) bool {
@@ -1292,6 +1292,8 @@ func c12ConstructorCollections(ctx *Ctx, r *Report) {
 					kinds = append(kinds, "array")
 				case "IsMap":
 					kinds = append(kinds, "map")
+				case "IsConcreteScalar":
+					kinds = append(kinds, "constant")
 				case "IsAnyOf":
 					for _, a := range x.Args {
 						if id, ok := a.(*ast.SelectorExpr); ok {
@@ -1317,9 +1319,14 @@ func c12ConstructorCollections(ctx *Ctx, r *Report) {
 			return true
 		})
 	}
-	for _, k := range []string{"array", "map"} {
+	for _, k := range []string{"array", "map", "constant"} {
 		pos, ok := direct[k]
 		if !ok {
+			continue
+		}
+		if k == "constant" {
+			r.Check(resolved[k], "siblings/constructor-collections-through-references", "golang.defaultsForStructRec initialises constant fields, named or not", pos, "IsConcreteScalar is also tested on the resolved type of a reference",
+				"a field whose type is an in-line constant is set by the constructor, the same field typed by a *named* constant (a reference: `#K: \"fixed\"`, `k: #K`) is not: NewRoot() encodes {\"k\":\"\"} where the schema only accepts \"fixed\" (and where Python writes it)")
 			continue
 		}
 		r.Check(resolved[k], "siblings/constructor-collections-through-references", "golang.defaultsForStructRec initialises required "+k+" fields, named or not", pos, "the kind is also tested on the resolved type of a reference",
